@@ -6,7 +6,7 @@
    C13 statement, executable = the judge of the end-to-end correspondence run). *)
 From CSL Require Import Base.Prelude Base.U64 Cbor.Head Codec.Schema Ledger.Schemas
   Batch.Calc Batch.CalcProofs Batch.Denote Batch.EncProofs Batch.IntermediateProofs
-  Batch.Proposal Batch.ProposalProofs Batch.BatchProofs.
+  Batch.Proposal Batch.ProposalProofs Batch.BatchProofs Batch.PureAda Batch.PureAdaProofs.
 From CSL Require Cbor.Item Batch.BatchSpec Batch.JudgeProofs.
 From Coq Require Import Permutation.
 Local Open Scope N_scope.
@@ -134,6 +134,27 @@ Theorem C13_partition : forall c plan txs,
   send_all c plan = Ok txs -> Permutation (concat (map x_inputs txs)) (all_indices c).
 Proof. exact send_all_partition. Qed.
 Print Assumptions C13_partition.
+
+(* every transaction of ANY successful batch (any plan) is valid *)
+Theorem C13_batch_valid : forall c plan free txs,
+  ctx_wf c -> incl free (all_indices c) -> batch c free plan = Ok txs -> Forall (tx_valid c) txs.
+Proof. intros c plan free txs W. exact (batch_valid c W plan free txs). Qed.
+Print Assumptions C13_batch_valid.
+
+(* FULL C13 where the code is deterministic: on UTxO sets without assets the batcher is modelled completely
+   (Batch/PureAda.v: pool sorted by amount, try_append_pure_ada_utxo with its top-up loop, the build loop) and the
+   correspondence run compares its transactions with the implementation's exactly; no abstraction is involved *)
+Theorem C13_pure_ada_full : forall c txs,
+  ctx_wf c -> no_assets c = true -> pure_send_all c = Ok txs ->
+  Permutation (concat (map x_inputs txs)) (all_indices c) /\ Forall (tx_valid c) txs.
+Proof. exact pure_ada_full. Qed.
+Print Assumptions C13_pure_ada_full.
+
+Example C13_pure_ada_example :
+  let c := mkCtx [mkUinfo 3000000 36 0 false []; mkUinfo 10000000 36 0 false []; mkUinfo 900000 37 1 true []] [] [KVkey; KByron 137]
+                 57 44 155381 4310 5000 16384 13900000 in
+  no_assets c = true /\ pure_send_all c = Ok [mkAtx [1; 0; 2] [(13725259, [])] 174741 [0; 1]].
+Proof. split; vm_compute; reflexivity. Qed.
 
 (* the premises are satisfiable: a two-UTxO layout with an asset, mainnet parameters *)
 Example C13_example :
